@@ -1457,6 +1457,9 @@ VARIANTS = [
     V("_check_inputs re-arms on `not job` with the branches swapped", SFILE, _S + "ExecuteStep._check_inputs",
       "    if (job := (await cast(JobPort, self.get_input_port('__job__')).get_job(self.name))) is not None:\n        _group_by_tag(inputs, inputs_map)",
       "    current = await cast(JobPort, self.get_input_port('__job__')).get_job(self.name)\n    job = current\n    if not job:\n        unfinished.add(asyncio.create_task(self._get_inputs(input_ports), name='retrieve_inputs'))\n    else:\n        _group_by_tag(inputs, inputs_map)", "R3"),
+    V("_check_inputs never looks at the job it read", SFILE, _S + "ExecuteStep._check_inputs",
+      "    if (job := (await cast(JobPort, self.get_input_port('__job__')).get_job(self.name))) is not None:",
+      "    job = await cast(JobPort, self.get_input_port('__job__')).get_job(self.name)\n    if len(inputs) > 0:", "R3"),
     V("benign: _check_inputs with a temporary and a flag for the job test", SFILE, _S + "ExecuteStep._check_inputs",
       "    if (job := (await cast(JobPort, self.get_input_port('__job__')).get_job(self.name))) is not None:",
       "    job_port = cast(JobPort, self.get_input_port('__job__'))\n    job = await job_port.get_job(self.name)\n    has_job = job is not None\n    if has_job:", None),
